@@ -453,6 +453,29 @@ theorem table_hashmap_writes_locked :
   decide
 
 
+/-- table decision: `HashMap.Value` and `HashMap.PutValue` (the two methods the pools use, hashmap.go:47,62)
+    touch the state behind their receiver only with the lock held, reads included.  (`Keys` and
+    `KeyValues` read it without the lock: no pool calls them while another goroutine writes.) -/
+theorem table_hashmap_value_put_locked :
+    ((Gotree.Gen.C11.hashMapAccesses.filter (fun ma => ma.1 == "HashMap.Value" || ma.1 == "HashMap.PutValue")).all
+      (fun ma => match ma.2.sync with | .mutex => true | _ => false)) = true ∧
+    (Gotree.Gen.C11.hashMapAccesses.any (fun ma => ma.1 == "HashMap.Value")) = true ∧
+    (Gotree.Gen.C11.hashMapAccesses.any (fun ma => ma.1 == "HashMap.PutValue" && ma.2.write)) = true := by decide
+
+/-- table decision: every exported method of `*support.Supporter` (the progress counter and the stop
+    flag shared by the FBP/TBE workers and the caller, F17) touches its fields only with the lock held -/
+theorem table_supporter_locked :
+    ((Gotree.Gen.C11.hashMapAccesses.filter (fun ma => (ma.1.toList.take 10) == "Supporter.".toList)).all
+      (fun ma => match ma.2.sync with | .mutex => true | _ => false)) = true ∧
+    (Gotree.Gen.C11.hashMapAccesses.any (fun ma => ma.1 == "Supporter.IncrementProgress" && ma.2.write)) = true ∧
+    (Gotree.Gen.C11.hashMapAccesses.any (fun ma => ma.1 == "Supporter.Canceled")) = true := by decide
+
+/-- table decision: in each pool the goroutine that closes the result channel is started after the
+    workers (after their `wg.Add`), so its `wg.Wait()` cannot return before they are accounted for -/
+theorem table_closer_after_workers :
+    Compare_worker0.line < Compare_closer0.line ∧ CompareWeighted_worker0.line < CompareWeighted_closer0.line ∧
+    FBP_worker0.line < FBP_closer0.line := by decide
+
 /-- table decision: the per-item pools have exactly the shape the driver runs (`shapeRecord`), and the
     FBP pool is a clean pool whose workers have early exits (the character of `shapeStop`) -/
 theorem table_shapes :
@@ -473,6 +496,12 @@ theorem table_sends_on_closed_channel :
     CompareWeighted_worker0.sends.all (fun s => CompareWeighted_closer0.closes.any (fun c => c.1 == s.1)) = true ∧
     FBP_worker0.sends.all (fun s => FBP_closer0.closes.any (fun c => c.1 == s.1)) = true ∧
     TBE_worker0.sends = [] := by decide
+
+/-- table decision: no read/write race between goroutines is visible in the table: whenever one goroutine
+    writes a captured variable and another one (or another instance of the same `go` statement started
+    in a loop) reads overlapping memory, both hold a lock, both are atomic, or both touch only the
+    cell owned through the item they received -/
+theorem table_no_read_write_race : Gotree.Gen.C11.readWriteRaces = [] := by decide
 
 /-- table decision: the only calls involving captured variables that the extractor did NOT analyse
     are the reviewed ones: bit-set comparison in the external bitset module (read-only), the quartet
@@ -544,6 +573,294 @@ theorem driver_runs_extracted_fbp (f : α → β) (stops : α → Bool) (w : Nat
   intro hno
   exact (pool_normal_form_complete fbpPool (by decide) f stops w hw cap hcap inp (Or.inr hno) _ hR hT).2
 
+/-! ## The same theorems for EVERY channel capacity, the unbuffered (rendezvous) channel included
+
+  `cap = 0` makes the producer's send and a worker's receive one step (Model/C11.lean).  The hypothesis
+  `1 ≤ cap` of the statements above is not needed; they are kept under their names, and proved again
+  here without it. -/
+
+section AnyCap
+open Classical
+
+/-- `pool_normal_form_general` for every capacity of the input channel, 0 (unbuffered: rendezvous) included -/
+theorem pool_normal_form_general_anycap (F : PoolFacts) (hF : F.exitsWithoutDone = [] ∧ F.unsyncSharedWrites = [] ∧ F.producerLeaks = [])
+    (f : α → β) (stops : α → Bool) (w cap : Nat) (inp : List α) (s : PState α β)
+    (hR : Reachable F f stops (init w cap inp) s) (hT : Terminal F f stops s) :
+    s.closed = true ∧ s.panicked = false ∧
+    (s.out ++ (s.dropped ++ (s.inp ++ s.pending)).map f).Perm (inp.map f) ∧
+    (∀ x ∈ s.dropped, stops x = true) ∧ (s.errSet = !s.dropped.isEmpty) ∧
+    (s.inp ++ s.pending ≠ [] → w ≤ s.dropped.length) ∧ (F.earlyExits = [] → s.dropped = []) ∧
+    (F.earlyExits ≠ [] → ∀ x ∈ s.done, stops x = false) ∧ s.out = s.done.map f := by
+  have hI := reachable_inv F f stops w cap inp s hR
+  have hC := reachable_invClean F ⟨hF.1, hF.2.1⟩ f stops w cap inp s hR
+  have hgone := terminal_workers_gone' F hF.2.2 f stops w cap inp s hI hT
+  -- no worker leaked, so all are finished
+  have hfin : ∀ p ∈ s.workers, p = Phase.finished := by
+    intro p hp
+    rcases hgone p hp with h | h
+    · exact h
+    · have := sumMap_eq_zero hC.noleak p hp
+      subst h; simp [Phase.isLeaked] at this
+  have hnf : sumMap Phase.notFinished s.workers = 0 := by
+    have : ∀ l : List (Phase α β), (∀ p ∈ l, p = Phase.finished) → sumMap Phase.notFinished l = 0 := by
+      intro l
+      induction l with
+      | nil => intro _; rfl
+      | cons a r ih =>
+        intro h
+        have ha := h a (by simp)
+        subst ha
+        simp [sumMap, Phase.notFinished]
+        exact ih (fun p hp => h p (by simp [hp]))
+    exact this _ hfin
+  have hwg : s.wg = 0 := by rw [hI.wg]; exact hnf
+  have hclosed : s.closed = true := by
+    apply closer_can_move F.shape f stops s hI.nopanic _ hwg
+    cases h0 : stepFn F.shape f stops s s.workers.length 0 with
+    | none => rfl
+    | some s' => exact absurd ⟨_, 0, h0⟩ (hT s')
+  have hcnt0 : ∀ a, sumMap (Phase.cnt a) s.workers = 0 := by
+    intro a
+    have : ∀ l : List (Phase α β), (∀ p ∈ l, p = Phase.finished) → sumMap (Phase.cnt a) l = 0 := by
+      intro l
+      induction l with
+      | nil => intro _; rfl
+      | cons b r ih =>
+        intro h
+        have hb := h b (by simp)
+        subst hb
+        simp [sumMap, Phase.cnt, Phase.items]
+        exact ih (fun p hp => h p (by simp [hp]))
+    exact this _ hfin
+  have hex : sumMap Phase.exited s.workers = w := by
+    rw [← hI.len]
+    apply sumMap_all_one
+    intro p hp
+    rw [hfin p hp]; rfl
+  refine ⟨hclosed, hI.nopanic, ?_, hI.droppedStops, hI.errset, ?_, ?_, ?_, hC.out⟩
+  · rw [hC.out, ← List.map_append]
+    apply List.Perm.map
+    rw [List.perm_iff_count]
+    intro a
+    have := hI.cons a
+    rw [hcnt0 a] at this
+    simp [List.count_append]; omega
+  · intro hne
+    rcases hI.exits with h | h
+    · exfalso
+      apply hne
+      rw [h.1, (hI.src1 h.2).1]; rfl
+    · omega
+  · intro he
+    apply hI.droppedEarly
+    simp [PoolFacts.shape, he]
+  · intro he
+    apply hI.noStopDone
+    simpa [PoolFacts.shape] using he
+
+/-- `pool_normal_form_complete` for every capacity of the input channel, 0 (unbuffered: rendezvous) included -/
+theorem pool_normal_form_complete_anycap (F : PoolFacts) (hF : F.exitsWithoutDone = [] ∧ F.unsyncSharedWrites = [] ∧ F.producerLeaks = [])
+    (f : α → β) (stops : α → Bool) (w : Nat) (hw : 1 ≤ w) (cap : Nat) (inp : List α)
+    (hE : F.earlyExits = [] ∨ ∀ x ∈ inp, stops x = false) (s : PState α β)
+    (hR : Reachable F f stops (init w cap inp) s) (hT : Terminal F f stops s) :
+    s.closed = true ∧ s.out.Perm (inp.map f) := by
+  obtain ⟨hc, _, hperm, hds, _, hinp, hde, _, _⟩ := pool_normal_form_general_anycap F hF f stops w cap inp s hR hT
+  have hI := reachable_inv F f stops w cap inp s hR
+  have hd : s.dropped = [] := by
+    rcases hE with hE | hE
+    · exact hde hE
+    · -- a dropped item would be an item of the input that stops
+      cases hdd : s.dropped with
+      | nil => rfl
+      | cons x r =>
+        have hx : stops x = true := hds x (by simp [hdd])
+        have hcons := hI.cons x
+        have : 0 < inp.count x := by
+          rw [← hcons, hdd]; simp; omega
+        have hmem : x ∈ inp := List.count_pos_iff.mp this
+        rw [hE x hmem] at hx
+        exact absurd hx (by simp)
+  have hi : s.inp ++ s.pending = [] := by
+    cases hii : s.inp ++ s.pending with
+    | nil => rfl
+    | cons x r =>
+      have := hinp (by simp [hii])
+      rw [hd] at this
+      simp at this; omega
+  refine ⟨hc, ?_⟩
+  simpa [hd, hi] using hperm
+
+/-- `pool_thread_count_independent` for every capacity of the input channel, 0 (unbuffered: rendezvous) included -/
+theorem pool_thread_count_independent_anycap (F : PoolFacts) (hF : F.exitsWithoutDone = [] ∧ F.unsyncSharedWrites = [] ∧ F.producerLeaks = [])
+    (f : α → β) (stops : α → Bool) (w : Nat) (hw : 1 ≤ w) (cap cap₁ : Nat) (inp : List α)
+    (hE : F.earlyExits = [] ∨ ∀ x ∈ inp, stops x = false) (s s₁ : PState α β)
+    (hR : Reachable F f stops (init w cap inp) s) (hT : Terminal F f stops s)
+    (hR₁ : Reachable F f stops (init 1 cap₁ inp) s₁) (hT₁ : Terminal F f stops s₁) :
+    s.out.Perm s₁.out :=
+  (pool_normal_form_complete_anycap F hF f stops w hw cap inp hE s hR hT).2.trans
+    (pool_normal_form_complete_anycap F hF f stops 1 (Nat.le_refl 1) cap₁ inp hE s₁ hR₁ hT₁).2.symm
+
+/-- `pool_single_worker_sequential` for every capacity of the input channel, 0 (unbuffered: rendezvous) included -/
+theorem pool_single_worker_sequential_anycap (F : PoolFacts) (hF : F.exitsWithoutDone = [] ∧ F.unsyncSharedWrites = [] ∧ F.producerLeaks = [])
+    (hE : F.earlyExits = []) (f : α → β) (stops : α → Bool) (cap : Nat) (inp : List α) (s : PState α β)
+    (hR : Reachable F f stops (init 1 cap inp) s) (hT : Terminal F f stops s) :
+    s.closed = true ∧ s.out.reverse = inp.map f := by
+  obtain ⟨hc, _, _, _, _, hinp, hde, _, hout⟩ := pool_normal_form_general_anycap F hF f stops 1 cap inp s hR hT
+  have hI := reachable_inv F f stops 1 cap inp s hR
+  have hC := reachable_invClean F ⟨hF.1, hF.2.1⟩ f stops 1 cap inp s hR
+  have hO := reachable_ordInv F hE f stops cap inp s hR
+  have hd : s.dropped = [] := hde hE
+  have hi : s.inp ++ s.pending = [] := by
+    cases hii : s.inp ++ s.pending with
+    | nil => rfl
+    | cons x r =>
+      have := hinp (by simp [hii])
+      rw [hd] at this
+      simp at this
+  have hi1 : s.inp = [] := (List.append_eq_nil_iff.mp hi).1
+  have hi2 : s.pending = [] := (List.append_eq_nil_iff.mp hi).2
+  -- the only worker is gone
+  have hgone := terminal_workers_gone' F hF.2.2 f stops 1 cap inp s hI hT
+  have hheld : heldL s.workers = [] := by
+    match hw : s.workers, hO.one with
+    | [p], _ =>
+      have := hgone p (by rw [hw]; simp)
+      rcases this with h | h <;> subst h <;> simp [heldL, Phase.items]
+  have hord := hO.ord
+  rw [hheld, hi1, hi2] at hord
+  simp at hord
+  refine ⟨hc, ?_⟩
+  rw [hout, ← List.map_reverse, hord]
+
+/-- `pool_no_deadlock` for every capacity of the input channel, 0 (unbuffered: rendezvous) included -/
+theorem pool_no_deadlock_anycap (F : PoolFacts) (hF : F.exitsWithoutDone = [] ∧ F.unsyncSharedWrites = [] ∧ F.producerLeaks = [])
+    (f : α → β) (stops : α → Bool) (w cap : Nat) (inp : List α) (s : PState α β)
+    (hR : Reachable F f stops (init w cap inp) s) (hc : s.closed = false) : ∃ s', Step F f stops s s' := by
+  apply Classical.byContradiction
+  intro hno
+  have hT : Terminal F f stops s := fun s' hs => hno ⟨s', hs⟩
+  have := (pool_normal_form_general_anycap F hF f stops w cap inp s hR hT).1
+  rw [hc] at this
+  exact absurd this (by simp)
+
+/-- `error_reaches_caller` for every capacity of the input channel, 0 (unbuffered: rendezvous) included -/
+theorem error_reaches_caller_anycap (F : PoolFacts) (hF : F.exitsWithoutDone = [] ∧ F.unsyncSharedWrites = [] ∧ F.producerLeaks = [])
+    (f : α → β) (stops : α → Bool) (w : Nat) (hw : 1 ≤ w) (cap : Nat) (inp : List α) (s : PState α β)
+    (hR : Reachable F f stops (init w cap inp) s) (hT : Terminal F f stops s) :
+    (F.earlyExits = [] → ∀ x ∈ inp, f x ∈ s.out) ∧
+    (F.earlyExits ≠ [] → (s.closed = true ∧ (s.errSet = true ↔ ∃ x ∈ inp, stops x = true))) := by
+  obtain ⟨hc, _, hperm, hds, herr, hinp, hde, hnd, hout⟩ := pool_normal_form_general_anycap F hF f stops w cap inp s hR hT
+  have hI := reachable_inv F f stops w cap inp s hR
+  constructor
+  · intro hE x hx
+    have := (pool_normal_form_complete_anycap F hF f stops w hw cap inp (Or.inl hE) s hR hT).2
+    exact (this.mem_iff).mpr (List.mem_map_of_mem hx)
+  · intro hE
+    refine ⟨hc, ?_⟩
+    constructor
+    · intro he
+      rw [herr] at he
+      cases hdd : s.dropped with
+      | nil => simp [hdd] at he
+      | cons x r =>
+        have hx : stops x = true := hds x (by simp [hdd])
+        have hcons := hI.cons x
+        have : 0 < inp.count x := by
+          rw [← hcons, hdd]; simp; omega
+        exact ⟨x, List.count_pos_iff.mp this, hx⟩
+    · intro ⟨x, hx, hsx⟩
+      rw [herr]
+      -- x is delivered, dropped, or never received
+      have hcx := hI.cons x
+      have hpos : 0 < inp.count x := List.count_pos_iff.mpr hx
+      cases hdd : s.dropped with
+      | cons y r => simp
+      | nil =>
+        exfalso
+        have hi : s.inp ++ s.pending = [] := by
+          cases hii : s.inp ++ s.pending with
+          | nil => rfl
+          | cons z r =>
+            have := hinp (by simp [hii])
+            rw [hdd] at this
+            simp at this; omega
+        have hi1 : s.inp = [] := (List.append_eq_nil_iff.mp hi).1
+        have hi2 : s.pending = [] := (List.append_eq_nil_iff.mp hi).2
+        -- then x ∈ done, but done items do not stop
+        have hfin : sumMap (Phase.cnt x) s.workers = 0 := by
+          have hgone := terminal_workers_gone' F hF.2.2 f stops w cap inp s hI hT
+          have : ∀ l : List (Phase α β), (∀ p ∈ l, p = Phase.finished ∨ p = Phase.leaked) → sumMap (Phase.cnt x) l = 0 := by
+            intro l
+            induction l with
+            | nil => intro _; rfl
+            | cons b r ih =>
+              intro h
+              have hb := h b (by simp)
+              have hr := ih (fun p hp => h p (by simp [hp]))
+              rcases hb with hb | hb <;> subst hb <;> simp [sumMap, Phase.cnt, Phase.items, hr]
+          exact this _ hgone
+        rw [hfin, hdd, hi1, hi2] at hcx
+        simp at hcx
+        have hxd : x ∈ s.done := List.count_pos_iff.mp (by omega)
+        have := hnd hE x hxd
+        rw [hsx] at this
+        exact absurd this (by simp)
+
+/-- `runToEnd_complete` for every capacity of the input channel, 0 (unbuffered: rendezvous) included -/
+theorem runToEnd_complete_anycap (F : PoolFacts) (hF : F.exitsWithoutDone = [] ∧ F.unsyncSharedWrites = [] ∧ F.producerLeaks = [])
+    (f : α → β) (stops : α → Bool) (w : Nat) (hw : 1 ≤ w) (cap : Nat) (inp : List α)
+    (hE : F.earlyExits = [] ∨ ∀ x ∈ inp, stops x = false) (sched : List (Nat × Nat)) :
+    (runToEnd F.shape f stops w cap inp sched).closed = true ∧
+    (runToEnd F.shape f stops w cap inp sched).out.Perm (inp.map f) := by
+  obtain ⟨hR, hT⟩ := runToEnd_maximal F f stops w cap inp sched
+  exact pool_normal_form_complete_anycap F hF f stops w hw cap inp hE _ hR hT
+
+/-- `extracted_record_pools_complete` for every capacity of the input channel, 0 (unbuffered: rendezvous) included -/
+theorem extracted_record_pools_complete_anycap (F : PoolFacts)
+    (hF : F = comparePool ∨ F = compareWeightedPool ∨ F = tbePool)
+    (f : α → β) (stops : α → Bool) (w : Nat) (hw : 1 ≤ w) (cap : Nat) (inp : List α) (s : PState α β)
+    (hR : Reachable F f stops (init w cap inp) s) (hT : Terminal F f stops s) :
+    s.closed = true ∧ s.out.Perm (inp.map f) := by
+  have h : (F.exitsWithoutDone = [] ∧ F.unsyncSharedWrites = [] ∧ F.producerLeaks = []) ∧ F.earlyExits = [] := by
+    rcases hF with rfl | rfl | rfl <;> decide
+  exact pool_normal_form_complete_anycap F h.1 f stops w hw cap inp (Or.inl h.2) s hR hT
+
+/-- `extracted_fbp_error_reaches_caller` for every capacity of the input channel, 0 (unbuffered: rendezvous) included -/
+theorem extracted_fbp_error_reaches_caller_anycap (f : α → β) (stops : α → Bool) (w : Nat) (hw : 1 ≤ w) (cap : Nat)
+    (inp : List α) (s : PState α β) (hR : Reachable fbpPool f stops (init w cap inp) s) (hT : Terminal fbpPool f stops s) :
+    s.closed = true ∧ (s.errSet = true ↔ ∃ x ∈ inp, stops x = true) :=
+  (error_reaches_caller_anycap fbpPool (by decide) f stops w hw cap inp s hR hT).2 (by decide)
+
+/-- `driver_runs_extracted_compare` for every capacity of the input channel, 0 (unbuffered: rendezvous) included -/
+theorem driver_runs_extracted_compare_anycap (f : α → β) (stops : α → Bool) (w : Nat) (hw : 1 ≤ w) (cap : Nat)
+    (inp : List α) (sched : List (Nat × Nat)) :
+    (runToEnd shapeRecord f stops w cap inp sched).closed = true ∧
+    (runToEnd shapeRecord f stops w cap inp sched).out.Perm (inp.map f) := by
+  have h := runToEnd_complete_anycap comparePool (by decide) f stops w hw cap inp (Or.inl (by decide)) sched
+  rw [table_shapes.1] at h
+  exact h
+
+/-- `driver_runs_extracted_fbp` for every capacity of the input channel, 0 (unbuffered: rendezvous) included -/
+theorem driver_runs_extracted_fbp_anycap (f : α → β) (stops : α → Bool) (w : Nat) (hw : 1 ≤ w) (cap : Nat)
+    (inp : List α) (sched : List (Nat × Nat)) :
+    Reachable fbpPool f stops (init w cap inp) (runToEnd shapeStop f stops w cap inp sched) ∧
+    Terminal fbpPool f stops (runToEnd shapeStop f stops w cap inp sched) ∧
+    (runToEnd shapeStop f stops w cap inp sched).closed = true ∧
+    ((runToEnd shapeStop f stops w cap inp sched).errSet = true ↔ ∃ x ∈ inp, stops x = true) ∧
+    ((∀ x ∈ inp, stops x = false) → (runToEnd shapeStop f stops w cap inp sched).out.Perm (inp.map f)) := by
+  have hsim := Shape.similar_symm table_fbp_similar_stop
+  have hm := runToEnd_maximal stopFacts f stops w cap inp sched
+  have hshape : stopFacts.shape = shapeStop := by decide
+  rw [hshape] at hm
+  have hR := reachable_congr hsim f stops _ _ hm.1
+  have hT := terminal_congr hsim f stops _ hm.2
+  have he := extracted_fbp_error_reaches_caller_anycap f stops w hw cap inp _ hR hT
+  refine ⟨hR, hT, he.1, he.2, ?_⟩
+  intro hno
+  exact (pool_normal_form_complete_anycap fbpPool (by decide) f stops w hw cap inp (Or.inr hno) _ hR hT).2
+
+end AnyCap
+
 /-! ## The repaired defects, on the shapes the pinned tree had -/
 
 
@@ -576,5 +893,9 @@ example : shapeRecord.clean := by simp [Shape.clean, shapeRecord]
 example : shapeStop.clean := by simp [Shape.clean, shapeStop]
 example : (runToEnd shapeRecord (fun n : Nat => n * 10) (fun _ => false) 2 1 [1, 2, 3] [(3, 0), (1, 0), (3, 0), (0, 0), (1, 0), (2, 0)]).closed = true := by decide
 example : (runToEnd shapeStop (fun n : Nat => n) (fun n => n == 2) 2 2 [1, 2, 3] [(3, 0), (3, 0), (1, 0), (0, 0), (1, 0), (0, 0)]).errSet = true := by decide
+
+-- a rendezvous run (capacity 0): two workers, three items, every send is a hand-over to a waiting worker
+example : (runToEnd shapeRecord (fun n : Nat => n * 10) (fun _ => false) 2 0 [1, 2, 3] [(1, 0), (0, 0), (1, 0), (0, 0)]).closed = true ∧
+    (runToEnd shapeRecord (fun n : Nat => n * 10) (fun _ => false) 2 0 [1, 2, 3] [(1, 0), (0, 0), (1, 0), (0, 0)]).out.length = 3 := by decide
 
 end Gotree.C11
